@@ -98,15 +98,32 @@ Result(e, c) == IF e.res = Len(objs) + 1 THEN objs' = Append(objs, c)
 (* this very key (the node objects memoise their children; a repeated call      *)
 (* makes no HMAC call).  A memo keyed too coarsely returns a key that was       *)
 (* explained for ANOTHER index or form: neither case applies.                   *)
+(* Third case, so that the binding does not depend on HOW the library computes  *)
+(* its HMAC: when no HMAC call keyed by the parent's chain code was observed    *)
+(* at all (the harness sees the stdlib hmac entry points only), the event is    *)
+(* judged on what needs no digest: depth, child number, parent fingerprint,     *)
+(* private/public kind and k G = K.  (Chain code and key of such a step are     *)
+(* then checked by the replay direction only; the harness counts these steps.)  *)
 Entry(c, ix, want, child) == [par |-> c, ix |-> ix, want |-> Want(ToTerm(c), want), child |-> child]
+Observed(chain, F) == \E i \in 1..Len(F.hmac) : F.hmac[i][1] = chain
+MetaOk(c, ix, want, child, F) ==
+  LET x == ToTerm(c) IN
+  /\ child.depth = c.depth + 1 /\ child.cn = ix
+  /\ child.pfp = EvalB(Fingerprint(x), F)
+  /\ (child.k # <<>>) = (IsPrivate(x) /\ Want(x, want) = "prv")
+  /\ (child.k # <<>> => Look1(F.pub, child.k) = child.K)
 Explained(c, ix, want, child, F) ==
   \/ Entry(c, ix, want, child) \in memo
   \/ WellFormed(child) /\ EvalNode(Derive(ToTerm(c), ix, want), F) = child
+  \/ ~Observed(c.chain, F) /\ WellFormed(child) /\ MetaOk(c, ix, want, child, F)
 
 TMaster(e) == /\ e.op = "master" /\ UNCHANGED memo
               /\ LET c == Node(e) IN
                  /\ WellFormed(c)
-                 /\ EvalNode(Master(B(e.seed)), e.facts) = c
+                 /\ \/ EvalNode(Master(B(e.seed)), e.facts) = c
+                    \/ /\ ~Observed(SeedKey.v, e.facts)
+                       /\ c.depth = 0 /\ c.pfp = <<0, 0, 0, 0>> /\ c.cn = Idx(FALSE, 0)
+                       /\ c.k # <<>> /\ Look1(e.facts.pub, c.k) = c.K
                  /\ Result(e, c)
 TDerive(e) == /\ e.op = "derive" /\ e.o \in 1..Len(objs)
               /\ LET x == ToTerm(objs[e.o])
